@@ -93,14 +93,14 @@ type Gen struct {
 
 // DefaultGen is the small alphabet (many collisions).
 func DefaultGen(r *rand.Rand) *Gen {
-	return &Gen{R: r, Keys: []string{"k1", "k2", "kx"}, IDs: []string{"a", "b", "ab", "c1"}, Fields: []string{"f", "g", "Speed"}}
+	return &Gen{R: r, Keys: []string{"k1", "k2", "kx"}, IDs: []string{"a", "b", "ab", "az", "c1"}, Fields: []string{"f", "g", "Speed"}}
 }
 
 // RichGen uses hostile names.
 func RichGen(r *rand.Rand) *Gen {
 	return &Gen{R: r, Rich: true,
 		Keys:   []string{"k1", "k:2", "key with space", "k*", "k?x", "клю", "k\x01", "K1", "[k]"},
-		IDs:    []string{"a", "b", "a*", "a?", "id with space", "İd", "a\\b", "\"q\"", "a{b}", "0", "-1", "truck:1", "[x]"},
+		IDs:    []string{"a", "b", "a*", "a?", "ad", "id with space", "İd", "a\\b", "\"q\"", "a{b}", "0", "-1", "truck:1", "[x]"},
 		Fields: []string{"f", "g", "Speed", "speed", "a b", "ŧ", "F", "_", "x9", "name\"q", ""}}
 }
 
@@ -299,6 +299,18 @@ func (g *Gen) Next() []string {
 	case 32:
 		if g.Rich && r.Intn(2) == 0 {
 			return []string{"SCAN", k, "MATCH", g.pick([]string{`a\*`, `a\?`, `\[x\]`, `a\\b`, `[a-b]?`, `*\**`}), g.pick([]string{"IDS", "IDS", "COUNT"})}
+		}
+		if r.Intn(3) == 0 {
+			// several patterns (any may match), one prefix inside the other, in both orders and directions
+			p := g.pick([]string{"a*|ab*", "ab*|a*", "b*|a*", "a*|b*|ab*", "i*|id*", "id*|i*"})
+			c := []string{"SCAN", k}
+			if r.Intn(2) == 0 {
+				c = append(c, "DESC")
+			}
+			for _, pat := range strings.Split(p, "|") {
+				c = append(c, "MATCH", pat)
+			}
+			return append(c, g.pick([]string{"IDS", "COUNT"}))
 		}
 		return []string{"SCAN", k, "MATCH", g.pick([]string{"a*", "*", "?", "b"}), g.pick([]string{"IDS", "IDS", "COUNT"})}
 	default:
